@@ -236,6 +236,9 @@ def run(res, tier, seed, shard, nshards):
             res.count(f"entry.{label}")
             res.count("raised" if exc is not None else "returned")
             res.seen((label, slot, vname, cfg))
+            if len(res.samples) < 5 and (res.evaluations % 97 == 1):
+                res.sample({"config": cfg, "entry": label, "slot": slot, "value": f"{vname}={WRONG.get(vname)!r}",
+                            "raised": None if exc is None else type(exc).__name__, "items_seen_by_storage_sentinel": sent.seen})
             detail = {"config": cfg, "entry": label, "slot": slot, "value": f"{vname}={WRONG.get(vname)!r}",
                       "exception": None if exc is None else f"{type(exc).__name__}: {exc}"[:200]}
             rep = {"entry": label, "slot": slot, "value": vname, "shard": shard}
@@ -285,9 +288,6 @@ def run(res, tier, seed, shard, nshards):
                     one_case(label, slot, vname, call, must_raise=not falsy_arg)
         for label, attr, vname, call in whole_container_calls():
             one_case(label, attr, vname, call, must_raise=True)
-        if shard == 0:
-            res.sample({"entry": "update(callable)", "slot": "tag_value", "value": "int=5", "expect": "ValueError/TypeError and nothing stored"})
-            res.sample({"entry": "Point()+insert", "slot": "field_value", "value": "bool=True", "expect": "ValueError"})
     res.exhaustive = True
     res.require("rejected_with_ValueError_or_TypeError")
     res.require("points_read_back_checked")
